@@ -179,7 +179,9 @@ def validate(ctx, events, shards=14):
     workers = max(1, min(shards, len(resets)))
     # thorough: many more pieces than workers, so that one expensive piece (wide numbers, long
     # scripts) does not leave the other workers idle
-    shards = max(1, min(shards * (6 if ctx.tier == "thorough" and n > 20000 else 1), len(resets)))
+    if ctx.tier == "thorough" and n > 20000:
+        shards = max(shards * 6, n // 12000)
+    shards = max(1, min(shards, len(resets)))
     cuts = [0]
     for k in range(1, shards):
         c = (n * k) // shards
